@@ -1170,6 +1170,10 @@ class Exec:
             if args:
                 o.fields["message0"] = args[0]
             return self.alloc(o)
+        if name in self.contract.opaque_new:
+            t = z3.Const(fresh_name("new_" + name), Val)
+            self.pc.append(Val.is_OpaqueV(t))
+            return ops.V(t, ("opaque",))
         hook = getattr(self, "construct_hook", None)
         if hook:
             r = hook(cref, args, kw)
@@ -2384,6 +2388,7 @@ def _merged_types(outer: Contract, inner: Contract):
     m.inline = list(outer.inline)
     m.opaque = list(outer.opaque)
     m.backrefs = dict(outer.backrefs)
+    m.opaque_new = list(outer.opaque_new)
     return m
 
 
